@@ -109,6 +109,7 @@ var qualifiedMap = map[string]string{
 	"context.WithCancel":   "WithCancel",
 	"context.WithTimeout":  "WithTimeout",
 	"context.WithDeadline": "WithDeadline",
+	"context.AfterFunc":    "CtxAfterFunc",
 	"net.Dial":             "Dial",
 	"crypto/rand.Reader":   "RandReader",
 	"crypto/rand.Read":     "RandRead",
@@ -142,8 +143,8 @@ var forbidden = map[string]bool{
 
 	"net.DialTimeout": true, "net.Listen": true, "net.DialTCP": true,
 	"context.WithCancelCause": true, "context.WithTimeoutCause": true, "context.WithDeadlineCause": true,
-	"context.AfterFunc": true, "context.WithoutCancel": true,
-	"math/rand.Intn": true, "math/rand.Int": true, "math/rand.Seed": true, "math/rand.Read": true,
+	"context.WithoutCancel": true,
+	"math/rand.Intn":        true, "math/rand.Int": true, "math/rand.Seed": true, "math/rand.Read": true,
 	"crypto/rand.Int": true, "crypto/rand.Prime": true,
 	"runtime.Gosched": true, "runtime.GC": true,
 	"os/signal.Notify": true,
